@@ -201,3 +201,152 @@ Example C02_ex_table_nonvacuous :
   length t1 = 2 /\ snd q1 = false /\ ExSpec.texts (ExDirty.xs (hd (ExDirty.xinit [] [] true) (fst q1))) = [[98]]%N /\
   snd (ExDirty.x_quit_scan [] t2) = true.
 Proof. vm_compute. repeat split. Qed.
+
+(* ------------------------------------------------------------------------------------------ *)
+(* ROUND e: THE TABLE bufs[NBUFS] AS IT IS IN ex.c (DirtyDefs.table: NSLOTS = NBUFS slots, NBUFS generated from ex.c; a slot
+   is occupied iff bufs[i].lb != NULL).  ec_quit_tab is the loop `for (i = 0; i < LEN(bufs); i++) if (bufs[i].lb) ...`:
+   EVERY slot of the array is visited, the last one of a full table included, empty slots anywhere are skipped;
+   switch_tab is bufs_switch (`if (bufs[0].lb) lbuf_modified(bufs[0].lb)`, then the memmove). *)
+Theorem C02_quit_table_sound : forall t : table, length t = NSLOTS -> Forall reachable (occupied t) ->
+  snd (ec_quit_tab false t) = true -> Forall (fun b => ln (lb b) = disk b) (occupied t).
+Proof. exact quit_tab_sound_reachable. Qed.
+Print Assumptions C02_quit_table_sound.
+
+(* a flagged buffer in ANY slot: no exit, the array keeps its length, every buffer keeps text, history, undo position
+   and file, and slot 0 holds a flagged buffer afterwards *)
+Theorem C02_quit_table_refuse : forall (t : table) (b : ebuf), In (Some b) t -> dirty_flag b = true ->
+  snd (ec_quit_tab false t) = false /\
+  length (fst (ec_quit_tab false t)) = length t /\
+  Permutation (map content (occupied (fst (ec_quit_tab false t)))) (map content (occupied t)) /\
+  exists cur rest, fst (ec_quit_tab false t) = Some cur :: rest /\ dirty_flag cur = true.
+Proof. exact quit_tab_refuses. Qed.
+Print Assumptions C02_quit_table_refuse.
+
+(* on the tables the editor reaches (occupied slots first: C20_wf_reachable) the array loop is the list scan of
+   C02_quit_sound / C02_quit_refuse, for every number of open buffers up to NBUFS *)
+Theorem C02_quit_table_is_scan : forall l : list ebuf, (length l <= NSLOTS)%nat ->
+  ec_quit_tab false (full_table l) = (full_table (fst (ec_quit false l)), snd (ec_quit false l)).
+Proof. exact quit_tab_is_scan. Qed.
+Print Assumptions C02_quit_table_is_scan.
+
+(* not vacuous: NBUFS is 16; a FULL table whose only modified buffer sits in the last slot refuses and brings that buffer
+   to slot 0; the same with one slot free; with nothing modified the scan exits *)
+Example C02_quit_table_nonvacuous :
+  let clean i := ebuf_open [N.of_nat (65 + i); 10]%N in
+  let dirty i := run_dop (clean i) (DEdit None 0 1) in
+  let t16 := full_table (map clean (List.seq 0 15) ++ [dirty 15]) in
+  let t15 := full_table (map clean (List.seq 0 14) ++ [dirty 14]) in
+  NSLOTS = 16%nat /\ length t16 = 16%nat /\ length (occupied t16) = 16%nat /\
+  snd (ec_quit_tab false t16) = false /\
+  option_map disk (hd None (fst (ec_quit_tab false t16))) = Some [[80; 10]]%N /\
+  length (occupied t15) = 15%nat /\ snd (ec_quit_tab false t15) = false /\
+  snd (ec_quit_tab false (full_table (map clean (List.seq 0 16)))) = true.
+Proof. vm_compute. repeat split. Qed.
+
+(* ------------------------------------------------------------------------------------------ *)
+(* ROUND f: WRITES THAT CAN FAIL.  Model coq/DirtyIoDefs.v: ec_write (fwrite) and ec_quit for q / wq / x / xa (fec_quit)
+   of ex.c on top of the saved-state bookkeeping above and of the write machinery of coq/IoDefs.v (C03): lbuf_save = the
+   mtime guards, open, lbuf_wr + write_fully, close, under a fault schedule with one outcome per open / write / close
+   call on the target.  ec_write reaches lbuf_saved / lbuf_unsaved only when lbuf_save returned NULL; close() is the last
+   call that can prevent that.  Ghost disk = the lines the file held when last read or last SUCCESSFULLY written. *)
+From NV Require IoDefs.
+From NV Require Import DirtyIoDefs DirtyIoProps.
+
+(* for EVERY interleaving of edits, command boundaries, undo, redo, atomic writes, reloads and writes (:w, :b,ew, :w path,
+   :x, with or without !) under ANY fault schedule: when the dirty test reports clean the text is the ghost disk *)
+Theorem C02_fault_history_clean_sound : forall (c : list N) (p : nat) (ts : Z) (fs : IoDefs.fsys) (ops : list fop),
+  let s := frun (fopen c p ts fs) ops in dirty_flag (fe (fb s)) = false -> ln (lb (fe (fb s))) = disk (fe (fb s)).
+Proof. exact fault_history_sound. Qed.
+Print Assumptions C02_fault_history_clean_sound.
+
+(* after ANY such history, a write that does not report success -- refused, open failed, some write() failed, or every
+   write() succeeded and close() failed -- on a buffer whose text differs from the ghost disk: text, undo history, undo
+   position and ghost disk are as before, the buffer is still reported modified, the scan of :q over any table holding it
+   refuses, and so does the guard of :e / :b / :! / :make *)
+Theorem C02_failed_write_stays_dirty : forall c p ts fs0 ops now isx force rng path sch st f' fs' r,
+  let s := frun (fopen c p ts fs0) ops in
+  fwrite now isx force rng path (fb s) (ffs s) sch = (st, f', fs', r) -> st <> IoDefs.SOk ->
+  ln (lb (fe (fb s))) <> disk (fe (fb s)) ->
+  content (fe f') = content (fe (fb s)) /\ dirty_flag (fe f') = true /\
+  (forall pre post, snd (ec_quit false (pre ++ fe f' :: post)) = false) /\
+  (forall rest, snd (guard_current false (fe f' :: rest)) = true).
+Proof. exact failed_write_stays_dirty. Qed.
+Print Assumptions C02_failed_write_stays_dirty.
+
+(* the failing close: open() succeeds, every write() call succeeds (short writes are retried: write_all answers true), the
+   close() consumes an error.  The file then holds the addressed lines, yet the command reports failure and the buffer is
+   the one before the command (for :x after the counter bump of its lbuf_modified call) *)
+Theorem C02_close_fault_unchanged : forall now isx force rng path f fs o s d r',
+  let e1 := pre_x isx f in
+  let be := rng_of rng (length (ln (lb e1))) in
+  skipsx isx f = false ->
+  IoDefs.refuses force (if Nat.eqb (fpath f) path then fts f else 0%Z) (IoDefs.fs_mtime fs path) = false ->
+  o <> IoDefs.OErr ->
+  IoDefs.write_all (IoDefs.outp (IoDefs.lbuf_wr (ln (lb e1)) (fst be) (snd be))) s = (d, true, IoDefs.OErr :: r') ->
+  exists fs', fwrite now isx force rng path f fs (o :: s) = (IoDefs.SFailed, set_fe f e1, fs', r') /\
+              IoDefs.fs_content fs' path = Some (IoDefs.want (ln (lb e1)) (fst be) (snd be)).
+Proof. exact close_fault_unchanged. Qed.
+Print Assumptions C02_close_fault_unchanged.
+
+(* any write that does not report success: text, undo history, undo position, ghost disk, flag, path, time stamp unchanged *)
+Theorem C02_failed_write_unchanged : forall now isx force rng path f fs sch st f' fs' r,
+  fwrite now isx force rng path f fs sch = (st, f', fs', r) -> st <> IoDefs.SOk ->
+  content (fe f') = content (fe f) /\ dirty_flag (fe f') = dirty_flag (fe f) /\ fpath f' = fpath f /\ fts f' = fts f.
+Proof. exact failed_write_unchanged. Qed.
+Print Assumptions C02_failed_write_unchanged.
+
+(* a write to the own path that reports success, under any schedule (short writes): the file holds exactly the new ghost
+   disk; after a write of the whole buffer the flag is off and the ghost disk is the text *)
+Theorem C02_successful_write_ghost : forall now isx force rng path f fs sch f' fs' r,
+  fwrite now isx force rng path f fs sch = (IoDefs.SOk, f', fs', r) -> skipsx isx f = false -> fpath f = path ->
+  IoDefs.fs_content fs' path = Some (concat (disk (fe f'))) /\
+  (rng = None -> dirty_flag (fe f') = false /\ disk (fe f') = ln (lb (fe f))).
+Proof. exact successful_write_ghost. Qed.
+Print Assumptions C02_successful_write_ghost.
+
+(* q / wq / x / xa, with or without !, with or without a path, over ANY table and ANY fault schedule: a consumed error
+   (close() included) never lets the editor go; not going always comes with a non-success status; every buffer keeps text,
+   undo history, undo position and path; without `a` and `!` the editor goes only if every buffer's text equals its ghost
+   disk *)
+Theorem C02_fault_quit : forall now wr isx all bang path t fs sch q st t' fs' r,
+  fec_quit now wr isx all bang path t fs sch = (q, st, t', fs', r) ->
+  (exists used, sch = used ++ r /\ (In IoDefs.OErr used -> q = false /\ st = IoDefs.SFailed)) /\
+  (q = false -> st <> IoDefs.SOk) /\
+  Permutation (map (fun f => (ln (lb (fe f)), hist (lb (fe f)), hist_u (lb (fe f)), fpath f)) t')
+              (map (fun f => (ln (lb (fe f)), hist (lb (fe f)), hist_u (lb (fe f)), fpath f)) t) /\
+  (q = true -> all = false -> bang = false -> Forall (fun f => EInv (fe f)) t ->
+     Forall (fun f => ln (lb (fe f)) = disk (fe f)) t').
+Proof. exact fec_quit_spec. Qed.
+Print Assumptions C02_fault_quit.
+
+(* the write part of :wq / :x fails: no quit, the scan is not even started, the table is as it was *)
+Theorem C02_fault_quit_write_fails : forall now isx all bang path f0 rest fs sch st f0' fs1 r1,
+  fwrite now isx bang None path f0 fs sch = (st, f0', fs1, r1) -> st <> IoDefs.SOk ->
+  fec_quit now true isx all bang path (f0 :: rest) fs sch = (false, st, set_fe f0 (pre_x isx f0) :: rest, fs1, r1).
+Proof. exact fec_quit_write_fails. Qed.
+Print Assumptions C02_fault_quit_write_fails.
+
+(* not vacuous: file "a b" (path 0, stamp 5), line 1 deleted.  :w with open ok, write ok, close FAILING: status failed, the
+   file holds "b", the flag is still on and :q is refused; :wq and :xa with the same schedule do not quit; :x too; on a
+   healthy system :wq exits, and so does :x after a short write that is retried; plain :q is refused; a retry :w after the
+   failed one is refused too ("file changed": the failed write has stamped the file), :w! succeeds, the flag goes off and
+   :q exits *)
+Example C02_fault_nonvacuous :
+  let fs := [(0%nat, ([97; 10; 98; 10]%N, 5%Z))] in
+  let s := frun (fopen [97; 10; 98; 10]%N 0 5%Z fs) [FD (DEdit None 0 1); FD DBump] in
+  let sch := [IoDefs.OOk; IoDefs.OOk; IoDefs.OErr] in
+  let w := fwrite 9%Z false false None 0 (fb s) (ffs s) sch in
+  let f1 := snd (fst (fst w)) in
+  let q wr isx all sc := fst (fst (fst (fst (fec_quit 9%Z wr isx all false 0 [fb s] (ffs s) sc)))) in
+  dirty_flag (fe (fb s)) = true /\
+  fst (fst (fst w)) = IoDefs.SFailed /\ IoDefs.fs_content (snd (fst w)) 0 = Some [98; 10]%N /\
+  dirty_flag (fe f1) = true /\ disk (fe f1) = [[97; 10]; [98; 10]]%N /\
+  snd (ec_quit false [fe f1]) = false /\
+  q true false false sch = false /\ q true true false sch = false /\ q false false true sch = false /\
+  q true false false [] = true /\ q true true false [IoDefs.OOk; IoDefs.OShort 1; IoDefs.OOk; IoDefs.OOk] = true /\
+  q false false false [] = false /\
+  fst (fst (fst (fwrite 9%Z false false None 0 f1 (snd (fst w)) []))) = IoDefs.SRefused /\
+  (let w2 := fwrite 9%Z false true None 0 f1 (snd (fst w)) [] in
+   fst (fst (fst w2)) = IoDefs.SOk /\ dirty_flag (fe (snd (fst (fst w2)))) = false /\
+   snd (ec_quit false [fe (snd (fst (fst w2)))]) = true).
+Proof. vm_compute. repeat split. Qed.
